@@ -1,5 +1,5 @@
-// Concrete counterexample produced by Kani for harness config::isomer_erbium_verif::k::c19_str_duration_total_short (/verif/kani/config.rs).
-// Replay: /verif/check C19 --replay /verif/replays/C19/c19_str_duration_total_short.rs
+// Concrete counterexample produced by Kani for harness radv::config::isomer_erbium_verif::k::c19_radv_parse_prefix_empty_mapping (/verif/kani/radv_config.rs).
+// Replay: /verif/check C19 --replay /verif/replays/C19/c19_radv_parse_prefix_empty_mapping.rs
 /// Check for `assertion`: "called `Option::unwrap()` on a `None` value"
 ///
 /// # Warning
@@ -13,13 +13,11 @@
 /// The execution path may also differ, which can be used to refine the stub
 /// logic.
 #[test]
-fn kani_concrete_playback_c19_str_duration_total_short_2341550331267429880() {
+fn kani_concrete_playback_c19_radv_parse_prefix_empty_mapping_6217064601916782847() {
     let concrete_vals: Vec<Vec<u8>> = vec![
-        // 165
-        vec![165],
-        // 115
-        vec![115],
+        // 0
+        vec![0],
     ];
-    kani::concrete_playback_run(concrete_vals, c19_str_duration_total_short);
+    kani::concrete_playback_run(concrete_vals, c19_radv_parse_prefix_empty_mapping);
 }
 
